@@ -52,7 +52,9 @@ CLAIMS = {
     'C15': P('Tree::change over all words/matchers; change_tree applies to at most one matching unreserved tree, offline empties and online restores the exact count; every allocation '
              'path returns only frames of trees that are not offline (contract G).', 'DESIGN.md 6 C15'),
     'C16': P('SortedBuffer::add inductive step for capacities 1..8 over any sorted-prefix state (=> every insertion sequence); search_best tries the N best-rated candidates best first.', 'DESIGN.md 6 C16'),
-    'C17': P('ZoneAlloc translation against an inner allocator with arbitrary behaviour (contract stub). The persistent wrapper (NvmAlloc) is not covered in this revision.', 'DESIGN.md 6 C17'),
+    'C17': P('ZoneAlloc translation against an inner allocator with arbitrary behaviour (contract stub); NvmAlloc::create over a zone of 8 frames: the lower metadata lies behind the managed '
+             'frames and in front of the header page, the header check refuses any other magic / frame count, recovery passes the same frame count in recover mode. "Same allocation state after '
+             'recovery" is C05.', 'DESIGN.md 6 C17'),
     'C18': P('CBMC pointer-validity, bounds and arithmetic checks are discharged inside every obligation; specific: metadata size computation, slices carved by LLFree::new for arbitrary '
              'buffer layouts, initialisation writes nothing outside. Sequential only; data races and weak memory are outside Kani.', 'DESIGN.md 6 C18'),
     'C19': P('Count::to_local against to_count over all usize; ClassingConfig::request for 1..4 classes, every Count kind, any order window, all order/core/cores/pid/gfp values.', 'DESIGN.md 6 C19',
